@@ -299,6 +299,58 @@ mod verif_bounded_mdk {
             }
         }
     }
+    // C03 "removed before that epoch ... learn nothing": several users removed in ONE remove_members call, named in every order of their
+    // public keys (ascending, descending, and with the kept member's key in between): every named user is evicted -- none of them is
+    // handed or stores a later message, the group is Inactive for each -- and the member that was not named still reads it.
+    // Scope: one admin, three other members (two memory-backed, one SQLite-backed), every 2-subset of them removed in both orders.
+    #[test]
+    fn several_users_removed_in_one_call_history() {
+        use crate::messages::MessageProcessingResult;
+        let label = "mdk_backends_bounded.several_users_removed_in_one_call_history";
+        for (x, y) in [(0usize, 1usize), (1, 0), (0, 2), (2, 0), (1, 2), (2, 1)] {
+            let ak = Keys::generate();
+            let mut uks = vec![Keys::generate(), Keys::generate(), Keys::generate()];
+            uks.sort_by_key(|k| k.public_key());     // uks[0] < uks[1] < uks[2] by public key
+            let a = create_test_mdk();
+            let (m0, m1) = (create_test_mdk(), create_test_mdk());
+            let s2 = MDK::new(MdkSqliteStorage::new_unencrypted(":memory:").unwrap());
+            let kps = vec![create_key_package_event(&m0, &uks[0]), create_key_package_event(&m1, &uks[1]), create_key_package_event(&s2, &uks[2])];
+            let res = a.create_group(&ak.public_key(), kps, create_nostr_group_config_data(vec![ak.public_key()])).unwrap();
+            let gid = res.group.mls_group_id.clone();
+            a.merge_pending_commit(&gid).unwrap();
+            let z = nostr::EventId::all_zeros();
+            let w = m0.process_welcome(&z, &res.welcome_rumors[0]).unwrap(); m0.accept_welcome(&w).unwrap();
+            let w = m1.process_welcome(&z, &res.welcome_rumors[1]).unwrap(); m1.accept_welcome(&w).unwrap();
+            let w = s2.process_welcome(&z, &res.welcome_rumors[2]).unwrap(); s2.accept_welcome(&w).unwrap();
+            let scen = format!("alice creates a group with users u0 < u1 < u2 (by public key; u2 on SQLite) ; alice removes [u{x}, u{y}] in one call ; alice sends a message");
+            let rm = a.remove_members(&gid, &[uks[x].public_key(), uks[y].public_key()]).unwrap().evolution_event;
+            a.merge_pending_commit(&gid).unwrap();
+            let secret = "sent after the removal";
+            let after = a.create_message(&gid, create_test_rumor(&ak, secret)).unwrap();
+            let kept = 3 - x - y;
+            // every client gets the commit, then the message
+            let feed = |i: usize| -> (bool, bool, Option<String>) {
+                macro_rules! run { ($c:expr) => {{
+                    let _ = $c.process_message(&rm);
+                    let got = matches!($c.process_message(&after), Ok(MessageProcessingResult::ApplicationMessage(_)));
+                    let stored = $c.get_messages(&gid, None).unwrap_or_default().iter().any(|m| m.content == secret);
+                    (got, stored, fp(&$c, &gid).state)
+                }}}
+                match i { 0 => run!(m0), 1 => run!(m1), _ => run!(s2) }
+            };
+            for i in 0..3 {
+                let (got, stored, state) = feed(i);
+                if i == kept {
+                    if !got || !stored { panic!("BOUNDED-COUNTEREXAMPLE {label}: scenario [history: {scen}] the member that was NOT named (u{i}) does not read the message (handed: {got}, stored: {stored})"); }
+                } else {
+                    if got || stored { panic!("BOUNDED-COUNTEREXAMPLE {label}: scenario [history: {scen}] the removed user u{i} reads the message sent after the removal (handed: {got}, stored: {stored})"); }
+                    if state.as_deref() != Some("Inactive") { panic!("BOUNDED-COUNTEREXAMPLE {label}: scenario [history: {scen}] the group is {state:?} (not Inactive) for the removed user u{i}"); }
+                }
+            }
+            let members = a.get_members(&gid).unwrap();
+            for i in [x, y] { if members.contains(&uks[i].public_key()) { panic!("BOUNDED-COUNTEREXAMPLE {label}: scenario [history: {scen}] the removed user u{i} is still a member on alice's side"); } }
+        }
+    }
     // C05: a commit that a NON-admin member builds directly with the MLS library (bypassing the client-side admin gate) and that does
     // more than refresh its author's own key -- a group-data rewrite making the author an admin, a removal, an add -- is refused by
     // both bystanders and leaves them exactly as they were. Scope: one hostile member, three crafted commits, each delivered twice.
